@@ -151,6 +151,10 @@ func GetPageSize(r *http.Request, opts ...func(*pageSizeConfiguration)) (uint64,
 		}
 	}
 
+	if pageSize == 0 {
+		return cfg.defaultPageSize, nil
+	}
+
 	if pageSize > cfg.maxPageSize {
 		return cfg.maxPageSize, nil
 	}
